@@ -67,11 +67,9 @@ def _period_attr(chk, cls):
     found = {}
     if init is None:
         return found
-    for st in ast.walk(init.node):
-        if isinstance(st, ast.Assign) and isinstance(st.value, ast.Name) and st.value.id in PERIOD_PARAMS:
-            for t in st.targets:
-                if isinstance(t, ast.Attribute) and isinstance(t.value, ast.Name) and t.value.id == "self":
-                    found[t.attr] = st.value.id
+    for t, v in util.simple_assignments(init.node):
+        if isinstance(v, ast.Name) and v.id in PERIOD_PARAMS and isinstance(t, ast.Attribute) and isinstance(t.value, ast.Name) and t.value.id == "self":
+            found[t.attr] = v.id
     return found
 
 
